@@ -73,6 +73,7 @@ type tlog struct {
 	holdGate  chan struct{}
 	holdEnter chan struct{}
 	spawnCtx  context.Context // if set, every node is spawned WithContext(spawnCtx)
+	lazyKids  bool            // children are spawned on request instead of by Started
 }
 
 var treeSeq int64
@@ -84,7 +85,19 @@ type treeActor struct {
 }
 
 type tQuery struct{ reply chan []string }
+type tSpawnKids struct{}
 type tWork struct{}
+
+func (a *treeActor) spawnKids(c *actor.Context) {
+	for _, k := range a.n.kids {
+		kn := a.tree[k]
+		opts := []actor.OptFunc{actor.WithID(fmt.Sprint(kn.idx)), actor.WithMaxRestarts(50), actor.WithRestartDelay(0), actor.WithInboxSize(4)}
+		if a.lg.spawnCtx != nil {
+			opts = append(opts, actor.WithContext(a.lg.spawnCtx))
+		}
+		c.SpawnChild(func() actor.Receiver { return &treeActor{n: kn, tree: a.tree, lg: a.lg} }, "n", opts...)
+	}
+}
 
 func (a *treeActor) desc(i int, out *[]int) {
 	for _, k := range a.tree[i].kids {
@@ -101,13 +114,17 @@ func (a *treeActor) Receive(c *actor.Context) {
 		a.lg.parentOf[a.n.idx] = pidStr(c.Parent())
 		a.lg.self[a.n.idx] = c.PID()
 		a.lg.mu.Unlock()
+		if a.lg.lazyKids {
+			break // the children are spawned on request (tSpawnKids), not by Started: a restart does not spawn them again
+		}
+		a.spawnKids(c)
+		if a.n.selfStop {
+			c.Engine().Poison(c.PID())
+		}
+	case tSpawnKids:
+		a.spawnKids(c)
 		for _, k := range a.n.kids {
-			kn := a.tree[k]
-			opts := []actor.OptFunc{actor.WithID(fmt.Sprint(kn.idx)), actor.WithMaxRestarts(50), actor.WithRestartDelay(0), actor.WithInboxSize(4)}
-			if a.lg.spawnCtx != nil {
-				opts = append(opts, actor.WithContext(a.lg.spawnCtx))
-			}
-			c.SpawnChild(func() actor.Receiver { return &treeActor{n: kn, tree: a.tree, lg: a.lg} }, "n", opts...)
+			c.Send(actor.NewPID("local", a.tree[k].id), tSpawnKids{})
 		}
 		if a.n.selfStop {
 			c.Engine().Poison(c.PID())
@@ -236,7 +253,15 @@ func c08Tree(c *caseCtx) (res caseResult) {
 			cancelSpawn()
 		}
 	}
+	lg.lazyKids = len(selfStoppers) == 0 && r.Intn(3) == 0
 	root := e.Spawn(func() actor.Receiver { return &treeActor{n: tree[0], tree: tree, lg: lg} }, "tree", rootOpts...)
+	if lg.lazyKids {
+		e.Send(root, tSpawnKids{})
+		if !waitFor(wd, func() bool { lg.mu.Lock(); defer lg.mu.Unlock(); return len(lg.started) == len(tree) }) {
+			res.inconclusive("the tree did not come up")
+			return
+		}
+	}
 	res.Desc = fmt.Sprintf("tree nodes=%d", len(tree))
 	alive := make([]bool, len(tree))
 	var markAlive func(i int, v bool)
@@ -430,7 +455,7 @@ func c08Tree(c *caseCtx) (res caseResult) {
 		}
 	}
 	if depth >= 1 {
-		res.Sig = sigHash("tree", len(tree), depth, len(third), graceful, top != 0, len(inSelf), ctxMode)
+		res.Sig = sigHash("tree", len(tree), depth, len(third), graceful, top != 0, len(inSelf), ctxMode, lg.lazyKids)
 	}
 	res.Desc = fmt.Sprintf("tree nodes=%d depth=%d selfstop=%d third=%v top=%d graceful=%v spawnCtxMode=%d", len(tree), depth, len(inSelf), third, top, graceful, ctxMode)
 	if c.n < 2 || res.Verdict == vViolated {
